@@ -25,5 +25,5 @@ json.dump({"repo_head":"$head","check":"$P","applies":True,"exit":$rc,"caught":b
 PY
   git -C /repo worktree remove --force $wt; rm -rf $wt
 done
-python3 translator/gen_rules.py /repo > /dev/null 2>&1; python3 translator/gen_schema.py /repo > /dev/null 2>&1; python3 translator/gen_builder.py /repo > /dev/null 2>&1; python3 translator/gen_rows.py /repo > /dev/null 2>&1; python3 translator/gen_cost.py /repo > /dev/null 2>&1; VERIF_REPO=/repo python3 translator/gen_consts.py > /dev/null 2>&1; VERIF_REPO=/repo python3 translator/gen_valueorder.py > /dev/null 2>&1
+if [ -z "$SEEDFINAL_NO_RESTORE" ]; then python3 translator/gen_rules.py /repo > /dev/null 2>&1; python3 translator/gen_schema.py /repo > /dev/null 2>&1; python3 translator/gen_builder.py /repo > /dev/null 2>&1; python3 translator/gen_rows.py /repo > /dev/null 2>&1; python3 translator/gen_cost.py /repo > /dev/null 2>&1; VERIF_REPO=/repo python3 translator/gen_consts.py > /dev/null 2>&1; VERIF_REPO=/repo python3 translator/gen_valueorder.py > /dev/null 2>&1; fi
 ls translator/
